@@ -470,6 +470,26 @@ class dict_mode:  # noqa: N801
         return False
 
 
+class force_mode:  # noqa: N801
+    """Context manager that makes the named dict-order mode effective regardless of the enclosing one."""
+
+    FLAGS = {'sorted': ((False, 'ns'), (False, GLOBAL)), 'ins_ns': ((True, 'ns'), (False, GLOBAL)),
+             'ins_global': ((False, 'ns'), (True, GLOBAL))}
+
+    def __init__(self, name):
+        self.cms = [optree.dict_insertion_ordered(m, namespace=n) for m, n in self.FLAGS[name]]
+
+    def __enter__(self):
+        for cm in self.cms:
+            cm.__enter__()
+        return self
+
+    def __exit__(self, *exc):
+        for cm in reversed(self.cms):
+            cm.__exit__(*exc)
+        return False
+
+
 def all_configs(predicates=None, namespaces=None, modes=None, nils=(False, True)):
     predicates = list(PREDICATES) if predicates is None else predicates
     namespaces = list(Universe.NAMESPACES) if namespaces is None else namespaces
